@@ -16,7 +16,8 @@ import (
 
 var csvFieldAlpha = []string{"a", "b", "0", "1", "1.5", "-2", "1e3", "1e400", "1e-400", "1_0", "0x1p-2", "0x10", " 7 ", "7 ",
 	"Inf", "-inf", "nan", "+Inf", "infinity", "", " ", "x y", "a,b", "say \"hi\"", "line\nbreak", "cr\rhere", "crlf\r\nx",
-	"  9", " 1", "é", "漢", "\\.", "\t2", "00", ".5", "5.", "--1", "1e", "true", "<nil>", "+1", "1,5"}
+	"  9", " 1", "é", "漢", "\\.", "\t2", "00", ".5", "5.", "--1", "1e", "true", "<nil>", "+1", "1,5",
+	"-0", " -0 ", "-00", "-0.0", "+0", "-0e5", "#c", "#", "# 1", ";x", "//x"}
 
 func csvQuote(s string) string { return `"` + strings.ReplaceAll(s, `"`, `""`) + `"` }
 
@@ -41,7 +42,7 @@ func genCsvImport(r *Rng) *Enc {
 	var sb strings.Builder
 	ncols := r.Range(1, 4)
 	nrows := r.Intn(6)
-	hdrNames := []string{"a", "b", "c", "d", "a b", "x,y", "q\"q", "", " s"}
+	hdrNames := []string{"a", "b", "c", "d", "a b", "x,y", "q\"q", "", " s", "#h", "s ", "a "}
 	perm := r.Perm(len(hdrNames))
 	for j := 0; j < ncols; j++ {
 		if j > 0 {
@@ -164,7 +165,8 @@ func csvCellFor(r *Rng, inDomain bool) any {
 		case 3:
 			return float64(r.Range(-3, 3))
 		default:
-			return Pick(r, []string{"a", "b c", "x,y", "say \"hi\"", "line\nbreak", "cr\rin", "é", "漢字", "", "\\.", "a\"", "\"", ",", "tab\tin", "<nil>", "true", "1a", "--1", "e5", "a,\"b\"\n,c", "1,2,3", "12,5", "7,", "1,000", ",5", "over\rstrike", "5%"})
+			return Pick(r, []string{"a", "b c", "x,y", "say \"hi\"", "line\nbreak", "cr\rin", "é", "漢字", "", "\\.", "a\"", "\"", ",", "tab\tin", "<nil>", "true", "1a", "--1", "e5", "a,\"b\"\n,c", "1,2,3", "12,5", "7,", "1,000", ",5", "over\rstrike", "5%",
+				"#a", "#", "# c", "#1", ";x", "//c", "--", "'q'", "#a,b"})
 		}
 	}
 	return Pick(r, []any{" lead", "trail ", "12", "1e3", "crlf\r\nx", " ", "nan", nil, true, int64(1) << 60})
@@ -177,7 +179,7 @@ func genCsvRoundTrip(r *Rng) *Enc {
 		ncols = 0
 	}
 	n := r.Intn(6)
-	names := []string{"a", "b", "c", "a b", "x,y", "q\"q", "l\nf", " s", "é", "", "1", "cr\r"}
+	names := []string{"a", "b", "c", "a b", "x,y", "q\"q", "l\nf", " s", "é", "", "1", "cr\r", "#h", "!", "#"}
 	perm := r.Perm(len(names))
 	df := dataframe.NewDataFrame()
 	inDomain := !r.Chance(15)
